@@ -631,6 +631,15 @@ pub fn def(tier: Tier) -> PropertyDef {
 			continue; // no signals
 		}
 		checks.push(pt(&format!("signals_{name}"), tier.pick(4000, 12000), strategy(name, max_len), run));
+		// long one-sided trends with a zig-zag: run, peak and "bars since" counters far from their start
+		let strat = (cfggen::config_strategy(name, GenOpts { wide: false, price_sources: true, nonneg_ma: false }), gen::trend_candle_stream(tier.pick(2500, 12000))).prop_map(move |(mut cfg, s)| {
+			if name == "Example" && !cfg.cfg.is_null() {
+				let (lo, hi) = s.cs.iter().fold((f64::INFINITY, 0.0f64), |a, k| (a.0.min(k.c), a.1.max(k.c)));
+				cfg.cfg["price"] = serde_json::json!(gen::vt(lo + (hi - lo) * 0.4).max(1e-9));
+			}
+			SCase { cfg, s }
+		});
+		checks.push(pt(&format!("trend_signals_{name}"), tier.pick(60, 300), strat, run));
 	}
 	PropertyDef {
 		id: "C06",
